@@ -30,7 +30,8 @@ def run(tier):
         groups = [list(range(g, min(g + per, 1792))) for g in range(0, 1792, per)]
         if tier != 'quick':
             groups += [list(range(g, 1792, 256)) for g in range(256)]
-        outs = pool.map(ctldrv.out_cases, [(sd * 59 + k, nout, wd, groups[k::16]) for k in range(16)])
+        outs = pool.map(ctldrv.out_cases, [(sd * 59 + k, nout, wd, groups[k::16], [ctldrv.PROBE_UNEXECUTED_ENTRY] if k == 0 else [])
+                                           for k in range(16)])
     ft = [c for p in fts for c in p]
     out = [c for p in outs for c in p]
     log('C14: %d find-terminal calls, %d sna2ctl runs' % (len(ft), len(out)))
